@@ -211,7 +211,8 @@ func main() {
 		}
 		_, files, _ := harnessOverlay(*repo, *hroot)
 		r := &Run{Repo: *repo, HarnessRoot: *hroot, HarnessFiles: files, Tags: *tags}
-		out, _ := r.nativeRun(cf.Package, cf.Harness, *replayF)
+		abs, _ := filepath.Abs(*replayF)
+		out, _ := r.nativeRun(cf.Package, cf.Harness, abs)
 		fmt.Println(out)
 		v := r.replayVerdict(out, cf)
 		fmt.Println(v)
